@@ -60,6 +60,8 @@ type VC struct {
 	symCache   map[int]map[string]bool
 	topRets    []*retEdge // return edges of the function under proof
 	topFrame   *Frame
+	noSplit    bool
+	pendingAlt *retEdge // second group of return edges of the inlined call just executed (see execInstrs)
 }
 
 func newVC(p *Program, fn *ssa.Function) *VC {
@@ -352,6 +354,7 @@ func (fr *Frame) enterBlock(b *ssa.BasicBlock, in []*Edge) *State {
 			keys[k] = true
 		}
 	}
+	rel := relConds(reachesOf(sts))
 	for k := range keys {
 		var acc Value
 		for i := len(live) - 1; i >= 0; i-- {
@@ -362,7 +365,7 @@ func (fr *Frame) enterBlock(b *ssa.BasicBlock, in []*Edge) *State {
 			if acc == nil {
 				acc = v
 			} else {
-				acc = iteValue(live[i].St.Reach, v, acc)
+				acc = iteValue(rel[i], v, acc)
 			}
 		}
 		fr.env[k] = acc
